@@ -175,4 +175,15 @@ CLAIMS["C10"] = {
     "technique": "taint (global-coordinate) dataflow + normal forms of conversion formulas + name/attribute resolution over the class hierarchy (AST, CFG)",
 }
 
+CLAIMS["C11"] = {
+    "text": "Decides the lock-step discipline of the computation graph on the CFG of the node methods (every positional and keyword Node input is asked for the same buffer index; the node's "
+            "index advances exactly once after each evaluated buffer and never without one; repeated requests are served from the current buffer; a stream node pulls one chunk per step), the "
+            "pairing of mapped functions with combiners read from the registration tables (sum/add, histogram/add-with-equal-edges, mean as (sum, n) with final division; joint reductions "
+            "post-process each member on its own; the stand-alone histogram reducer lacks the edge check: recorded finding; bincount pads to the longer vector), the re-chunking generators "
+            "(pending-data path rule, one bound on both sides of every cut, emit loop repeats while a full block is buffered, guarded final flush), the group join (chain then re-group on the "
+            "key, concatenate in order), the streamable decorator (zip lock step, declared reduction applied) and - shared with C12 - that every contig of the genome order yields one buffer.",
+    "note": _NOTE + "Known finding: histogram_reduce adds histograms with different edges. Not decided: numeric equality of reductions; splits inside a group beyond the join structure.",
+    "technique": "CFG once/always path rules for the buffer index + table agreement of reducer pairings + pending-data discharge for re-chunking (AST, CFG)",
+}
+
 NOT_APPLICABLE = {}
